@@ -43,22 +43,38 @@ case_strategy = st.integers(6, 24).flatmap(lambda size: st.fixed_dictionaries({
     # None: the random mask above; k: keep exactly nfree + k pixels (the just-determined and nearly just-determined grids),
     # drawn from the pixels nearest to the component centres so that the problem stays well conditioned
     "mask_exact": st.sampled_from([None, None, None, None, 0, 0, 1, 2]),
-    "weight": st.sampled_from(["none", "scalar", "vector", "B", "C"]),
+    "weight": st.sampled_from(["none", "scalar", "vector", "B", "C", "vectorB"]),
+    # order in which the entries are put into the lmfit.Parameters container (the documented order of rows and errors is by
+    # component and parameter, whatever the storage order)
+    "order": st.sampled_from(["canonical", "canonical", "canonical", "reversed", "by-kind", "shuffled"]),
     "errs": f(0.01, 10),
     "corr": st.tuples(f(0.2, 0.7), f(0.2, 0.7), f(-90, 90)),
 }))
 
 
-def make_params(comps, size):
-    p = lmfit.Parameters()
+def make_params(comps, size, order="canonical"):
+    entries = []
     for i, c in enumerate(comps):
         pre = "c%d_" % i
         sy = c["sx"] * c["ratio"] if c["sx"] * c["ratio"] >= 0.5 else c["sx"] / c["ratio"]
         vals = {"amp": c["amp"], "xo": c["xo"] * (size[0] - 1), "yo": c["yo"] * (size[1] - 1), "sx": c["sx"], "sy": sy, "theta": c["theta"]}
         for k, name in enumerate(PNAMES):
-            p.add(pre + name, value=vals[name], vary=bool(c["vary"][k]))
-        p.add(pre + "flags", value=0, vary=False)
-    p.add("components", value=len(comps), vary=False)
+            entries.append((i, k, pre + name, vals[name], bool(c["vary"][k])))
+        entries.append((i, len(PNAMES), pre + "flags", 0, False))
+    if order == "reversed":
+        entries.sort(key=lambda e: (-e[0], e[1]))
+    elif order == "by-kind":
+        entries.sort(key=lambda e: (e[1], e[0]))
+    elif order == "shuffled":
+        rng = np.random.default_rng(len(entries) * 7919 + int(abs(comps[0]["amp"]) * 1000))
+        entries = [entries[j] for j in rng.permutation(len(entries))]
+    p = lmfit.Parameters()
+    if order == "by-kind":
+        p.add("components", value=len(comps), vary=False)
+    for _, _, name, val, vary in entries:
+        p.add(name, value=val, vary=vary)
+    if order != "by-kind":
+        p.add("components", value=len(comps), vary=False)
     return p
 
 
@@ -110,7 +126,7 @@ def check_case(c):
     comps = [dict(cc) for cc in c["comps"]]
     if not any(any(cc["vary"]) for cc in comps):
         comps[0]["vary"] = [True] + list(comps[0]["vary"][1:])
-    params = make_params(comps, c["size"])
+    params = make_params(comps, c["size"], c.get("order", "canonical"))
     free = free_list(comps)
     nfree = len(free)
     nx, ny = c["size"]
@@ -168,10 +184,10 @@ def check_case(c):
     B = C = None
     if w in ("scalar", "B", "C"):
         errs = c["errs"]
-    elif w == "vector":
+    elif w in ("vector", "vectorB"):
         rng = np.random.default_rng(12345 + npix)
         errs = c["errs"] * (0.5 + rng.random(npix))
-    if w in ("B", "C"):
+    if w in ("B", "C", "vectorB"):
         sxc, syc, thc = c["corr"]
         t = math.radians(thc)
         dx = x[:, None] - x[None, :]
@@ -246,7 +262,7 @@ def check_case(c):
                 break
     theta_free = any(nm.endswith("theta") for nm in free)
     res.nontrivial = bool(len(comps) >= 2 or theta_free)
-    res.label("ncomp-%d" % len(comps), "weight-" + w)
+    res.label("ncomp-%d" % len(comps), "weight-" + w, "order-" + c.get("order", "canonical"))
     if theta_free:
         res.label("theta-free")
     return res
